@@ -16,7 +16,7 @@ from ..ctx import CTX, RunTooBig
 from ..history import History, canon, canon_outcome, digest
 from ..rng import Streams, chance, pick, weighted
 from ..sim import apply_op, build_sim, locations, readable, stack_state
-from ..world import gen_inputs, gen_request, gen_situation, gen_value, gen_world
+from ..world import gen_inputs, gen_request, gen_situation, gen_value, gen_world, wide_knob
 from . import Result
 from .c18 import make_env
 
@@ -41,7 +41,7 @@ def generate(seed: int, tier: str) -> dict:
     st = Streams(seed)
     wr = st["world"]
     profile = weighted(wr, [("acyclic", 7), ("spiral", 3)])
-    world = gen_world(wr, discipline=profile, n_vars=wr.randint(3, 8 if tier == "quick" else 12), max_depth=2)
+    world = gen_world(wr, discipline=profile, n_vars=wr.randint(3, 8 if tier == "quick" else 12), max_depth=2, wide=wide_knob(wr, tier, 0.15))
     ir = st["inputs"]
     situation = gen_situation(ir, world, max_persons=4)
     inputs = gen_inputs(ir, world, p=0.45)
